@@ -13,8 +13,9 @@ cpio 16/32-bit stores) the full statement is kept as a `def … : Prop`, its neg
 with a concrete witness and a `_partial` theorem names what is excluded.
 -/
 import LA.Lemmas.NumFmt
+import LA.Lemmas.UstarSpec
 namespace LA.C10
-open LA.NumFmt
+open LA.NumFmt LA.Codec
 
 /-- The value fits a field of `s` digits in base `b`. -/
 def fits (b : Nat) (s : Nat) (v : Int) : Prop := 0 ≤ v ∧ v < ((b ^ s : Nat) : Int)
@@ -304,5 +305,111 @@ theorem bin16_exact_partial (v : Int) (h0 : 0 ≤ v) (h1 : v < 65536) : ((le16 (
   rw [this]; omega
 
 example : le16 (bin16 65535) = 65535 ∧ le16 (bin16 65536) = 0 := by decide
+
+/-! ## Part 2: the ustar header writer (`archive_write_ustar_header` →
+`__archive_write_format_header_ustar`) against the tar reader (`header_common`, `header_ustar`)
+
+`ustarWriteHeader` is the byte-exact model of the writer (equal to the C on every generated
+entry, engine `codec`); `ustarDecode` / `tarChecksumOk` model the reader.  "Exact" is
+`(norm .ustar e).mismatch rb 0 = none`: every field ustar carries reads back as given
+(pathname up to the directory '/'), the very predicate the engine evaluates on the real code. -/
+
+/-- Full-strength C10 for ustar: plain success ⇒ the header decodes to the entry. -/
+def ok_implies_exact_ustar_full : Prop :=
+  ∀ (st : WState) (e : Entry) (b : List Nat) (st' : WState), wfEntry e →
+    ustarWriteHeader st e = (.ok, b, st') →
+    ∃ rb rem, ustarDecode b false = some (rb, rem) ∧ (norm .ustar e).mismatch rb 0 = none
+
+/-- The witness `known_findings.json` C10-tar-regslash replays on the real code: a regular
+file named "a/" is written with ARCHIVE_OK and reads back as a directory. -/
+def regSlashWitness : Entry := { path := some [97, 47], ftype := .reg, size := some 0 }
+
+theorem ok_implies_exact_ustar_false : ¬ ok_implies_exact_ustar_full := by
+  intro h
+  have hwf : wfEntry regSlashWitness := by
+    refine ⟨?_, ?_, ?_, ?_, ?_⟩
+    · intro p hp; cases hp; intro c hc
+      simp only [List.mem_cons, List.mem_nil_iff, or_false] at hc
+      rcases hc with rfl | rfl <;> decide
+    all_goals intro c hc; cases hc
+  have hnf : ustarFailed regSlashWitness [97, 47] 0 none true = false := by decide
+  have hok : ustarWriteHeader {} regSlashWitness
+      = (.ok, ustarHdr regSlashWitness [97, 47] 0, { remaining := 0, padding := 0 }) := by
+    unfold ustarWriteHeader
+    simp only [regSlashWitness, dirSlash, Entry.sizeV]
+    simp [ustarFormatHeader, ustarHdr, hnf, pad512]
+    exact hnf
+  obtain ⟨rb, rem, hdec, hmis⟩ := h {} regSlashWitness _ _ hwf hok
+  have hspec := ustarDecode_ustarHdr regSlashWitness [97, 47] 0 48
+    (by intro c hc; simp only [List.mem_cons, List.mem_nil_iff, or_false] at hc; rcases hc with rfl | rfl <;> decide)
+    (by intro c hc; cases hc) (by intro c hc; cases hc) (by intro c hc; cases hc) hnf (by decide)
+    (by intro p hp; have hw : ustarSplit [97, 47] = .whole := by decide
+        rw [hw] at hp; cases hp)
+  rw [hspec] at hdec
+  have hrb : ustarSpecRB regSlashWitness [97, 47] 0 48
+      = some ({ path := [97, 47], ftype := 16384, perm := 420, size := some 0, mtime := some 0 }, 0) := by decide
+  rw [hrb] at hdec
+  cases hdec
+  revert hmis
+  decide
+
+/-- **C10 for ustar** (`ok_implies_exact_ustar`, with what the unchanged code forces us to
+exclude named): if `archive_write_ustar_header` returns ARCHIVE_OK then the 512 bytes it
+produced pass the reader's checksum test and decode to an entry that agrees with the one
+handed in on every field ustar carries.  Excluded: a regular file whose name ends in '/'
+(finding C10-tar-regslash) and a name split whose prefix ends in '/' (finding
+C10-ustar-dblslash); `hlinks`: an entry names at most one kind of link. -/
+theorem ok_implies_exact_ustar_partial (st : WState) (e : Entry) (b : List Nat) (st' : WState)
+    (hwf : wfEntry e) (hok : ustarWriteHeader st e = (.ok, b, st'))
+    (hlinks : e.hard ≠ [] → e.sym = [])
+    (hnotrail : ∀ p0, e.path = some p0 → e.ftype = .reg → e.hard = [] → p0.getLast? ≠ some slash)
+    (hnodbl : ∀ p0 k, e.path = some p0 → ustarSplit (dirSlash e.ftype p0) = .split k →
+      ((dirSlash e.ftype p0).take k).getLast? ≠ some slash) :
+    tarChecksumOk b = true ∧
+    ∃ rb rem, ustarDecode b false = some (rb, rem) ∧ (norm .ustar e).mismatch rb 0 = none := by
+  obtain ⟨p0, hp, hnf, hb, _⟩ := ustarWriteHeader_ok st e b st' hok
+  rw [hb]
+  have hpath := wfStr_dirSlash e.ftype p0 (hwf.1 p0 hp)
+  have hlink := wfStr_tarLink e hwf
+  refine ⟨tarChecksumOk_ustarHdr e _ _ hpath hlink hwf.2.1 hwf.2.2.1, ?_⟩
+  obtain ⟨_, _, _, _, _, htype⟩ := ustarFailed_false e _ _ hnf
+  obtain ⟨t, ht⟩ := Option.isSome_iff_exists.1 htype
+  have hdec := ustarDecode_ustarHdr e _ _ t hpath hlink hwf.2.1 hwf.2.2.1 hnf ht (fun k hk => hnodbl p0 k hp hk)
+  obtain ⟨⟨rb, rem⟩, hs⟩ := ustarSpecRB_isSome e (dirSlash e.ftype p0) t ht
+  rw [hs] at hdec
+  exact ⟨rb, rem, hdec, ustar_agrees e p0 hp (hnotrail p0 hp) hlinks t ht rb rem hs⟩
+
+set_option maxRecDepth 16384 in
+/-- The hypotheses are satisfiable by a non-trivial entry: a 120-byte name that is split at a '/'. -/
+example : ∃ e : Entry, (ustarWriteHeader {} e).1 = .ok ∧ e.uid = 262143 ∧
+    (∃ k, ustarSplit (e.path.getD []) = .split k) :=
+  ⟨{ path := some (List.replicate 40 100 ++ [47] ++ List.replicate 79 110), uid := 262143, mtime := 1000000000,
+     uname := [117], size := some 5 }, by decide, rfl, ⟨40, by decide⟩⟩
+
+/-- The contrapositive, which is C10's own wording: an entry that does *not* read back exactly
+cannot have been answered with plain success.  E.g. uid 2^18, a 33-byte uname, a socket. -/
+theorem ustar_out_of_range_is_reported (st : WState) (e : Entry) (hfail :
+    ∀ p0, e.path = some p0 →
+      ustarFailed e (dirSlash e.ftype p0) (ustarSize e) none true = true) :
+    (ustarWriteHeader st e).1 ≠ .ok := by
+  unfold ustarWriteHeader
+  cases hp : e.path with
+  | none => simp
+  | some p0 =>
+    simp only []
+    have := hfail p0 hp
+    unfold ustarSize at this
+    simp [ustarFormatHeader, this]
+
+example : (ustarWriteHeader {} { path := some [97], uid := 262144 }).1 = .failed := by decide
+example : (ustarWriteHeader {} { path := some [97], uname := List.replicate 33 117 }).1 = .failed := by decide
+example : (ustarWriteHeader {} { path := some [97], ftype := .sock }).1 = .failed := by decide
+example : (ustarWriteHeader {} { path := none }).1 = .failed := by decide
+
+/-- A refused header contributes no bytes: `archive_write_ustar_header` returns before
+`__archive_write_output` (this is why a refused entry leaves the archive readable — the stream
+theorem of C02 then applies to the accepted entries alone). -/
+theorem ustar_refused_writes_nothing (st : WState) (e : Entry) (h : (ustarWriteHeader st e).1 ≠ .ok) :
+    ustarWriteHeader st e = (.failed, [], st) := ustarWriteHeader_refused st e h
 
 end LA.C10
